@@ -31,18 +31,18 @@ Print Assumptions vec_refines_singles.
 Theorem vec_session_refines_any_env :
   forall (env state : Type)
          (e_step : env -> state -> list Z -> state * trans)
-         (e_reset : env -> state -> option Z -> state * (dict obs_t * dict info_t))
+         (e_reset : env -> state -> rarg -> state * (dict obs_t * dict info_t))
          (e_kind : env -> okind) (e_live : state -> list nat) (s_init : state),
   (forall E s acts, all_done_keys (snd (e_step E s acts)) = g_no_agent_left e_live (fst (e_step E s acts))) ->
   (forall E s acts a ob, lookup a (tobs (snd (e_step E s acts))) = Some ob -> obs_ok (mshapes (e_kind E)) ob) ->
   (forall E s seed a ob, lookup a (fst (snd (e_reset E s seed))) = Some ob -> obs_ok (mshapes (e_kind E)) ob) ->
   (forall E s acts a d, lookup a (tinfo (snd (e_step E s acts))) = Some d -> NoDup (keys d)) ->
   (forall E s seed a d, lookup a (snd (snd (e_reset E s seed))) = Some d -> NoDup (keys d)) ->
-  forall k agents Es seed actss i E,
+  forall k agents Es sd opt actss i E,
   NoDup agents -> Forall (fun E0 => e_kind E0 = k) Es -> Forall (actions_ok (length Es)) actss ->
-  nth_error Es i = Some E ->
-  let st0 := fst (g_vec_reset (g_worker_reset e_reset e_kind) e_kind k agents Es (g_vec_init s_init k agents Es) seed) in
-  let s0 := fst (e_reset E s_init (seed_of seed i)) in
+  seed_ok (length Es) sd -> nth_error Es i = Some E ->
+  let st0 := fst (g_vec_reset (g_worker_reset e_reset e_kind) e_kind k agents Es (g_vec_init s_init k agents Es) sd opt) in
+  let s0 := fst (e_reset E s_init (rarg_at (length Es) sd opt i)) in
   let acts_i := map (fun actions => nth i (transpose_actions agents actions 0%Z) []) actss in
   nth_error (vstates (fst (g_vec_run (g_worker_step e_step e_reset e_kind) e_kind k agents Es st0 actss))) i
     = Some (fst (g_run (g_single_step e_step e_reset e_live) E s0 acts_i)) /\
@@ -56,7 +56,7 @@ Print Assumptions vec_session_refines_any_env.
    and the single-environment wrapper is the reference step *)
 Theorem worker_refines_single_any_env :
   forall (env state : Type) (e_step : env -> state -> list Z -> state * trans)
-         (e_reset : env -> state -> option Z -> state * (dict obs_t * dict info_t))
+         (e_reset : env -> state -> rarg -> state * (dict obs_t * dict info_t))
          (e_kind : env -> okind) (e_live : state -> list nat),
   (forall E s acts, all_done_keys (snd (e_step E s acts)) = g_no_agent_left e_live (fst (e_step E s acts))) ->
   forall E agents s acts,
@@ -68,7 +68,7 @@ Print Assumptions worker_refines_single_any_env.
 
 Theorem wrapper_same_condition_any_env :
   forall (env state : Type) (e_step : env -> state -> list Z -> state * trans)
-         (e_reset : env -> state -> option Z -> state * (dict obs_t * dict info_t))
+         (e_reset : env -> state -> rarg -> state * (dict obs_t * dict info_t))
          (e_live : state -> list nat),
   (forall E s acts, all_done_keys (snd (e_step E s acts)) = g_no_agent_left e_live (fst (e_step E s acts))) ->
   forall E s acts, g_wrapper_step e_step e_reset E s acts = g_single_step e_step e_reset e_live E s acts.
@@ -102,11 +102,11 @@ Print Assumptions agrees_at_unfold.
 
 (* the same from construction: vec_env = AsyncPettingZooVecEnv(fns); reset(seed); step* — position i is
    environment i reset alone with seed + i (no seed: None) and then stepped alone *)
-Theorem vec_session_refines : forall k agents Es seed actss i E,
+Theorem vec_session_refines : forall k agents Es sd opt actss i E,
   NoDup agents -> Forall (fun E => kind E = k) Es -> Forall (actions_ok (length Es)) actss ->
-  nth_error Es i = Some E ->
-  let st0 := fst (vec_reset k agents Es (vec_init k agents Es) seed) in
-  let s0 := fst (env_reset E init_state (seed_of seed i)) in
+  seed_ok (length Es) sd -> nth_error Es i = Some E ->
+  let st0 := fst (vec_reset k agents Es (vec_init k agents Es) sd opt) in
+  let s0 := fst (env_reset E init_state (rarg_at (length Es) sd opt i)) in
   let acts_i := map (fun actions => nth i (transpose_actions agents actions 0%Z) []) actss in
   nth_error (vstates (fst (vec_run k agents Es st0 actss))) i = Some (fst (single_run single_step E s0 acts_i)) /\
   Forall2 (fun out ref => agrees_at k agents i out (process_transition k agents ref))
@@ -115,11 +115,12 @@ Proof. exact vec_session_refines_lemma. Qed.
 Print Assumptions vec_session_refines.
 
 (* vec_env.reset(seed): observation / info at position i are those of environment i reset alone *)
-Theorem vec_reset_refines : forall k agents Es st seed i E s,
+Theorem vec_reset_refines : forall k agents Es st sd opt i E s,
   NoDup agents -> Forall (fun E => kind E = k) Es -> wf_vstate (length Es) k agents st ->
+  seed_ok (length Es) sd ->
   nth_error Es i = Some E -> nth_error (vstates st) i = Some s ->
-  let r := vec_reset k agents Es st seed in
-  let w := worker_reset E agents s (seed_of seed i) in
+  let r := vec_reset k agents Es st sd opt in
+  let w := worker_reset E agents s (rarg_at (length Es) sd opt i) in
   wf_vstate (length Es) k agents (fst r) /\
   nth_error (vstates (fst r)) i = Some (fst w) /\
   forall a, In a agents ->
@@ -129,12 +130,31 @@ Theorem vec_reset_refines : forall k agents Es st seed i E s,
 Proof. exact vec_reset_refines_lemma. Qed.
 Print Assumptions vec_reset_refines.
 
+(* what worker i receives from reset(seed, options): seed + i for an int seed, None for no seed, the
+   i-th entry of a list of seeds; the options unchanged *)
+Theorem reset_args_spec : forall n opt i,
+  (forall z, i < n -> rarg_at n (SInt z) opt i = (Some (z + Z.of_nat i)%Z, opt)) /\
+  (i < n -> rarg_at n SNone opt i = (None, opt)) /\
+  (forall l z, nth_error l i = Some z -> rarg_at (length l) (SList l) opt i = (Some z, opt)).
+Proof. exact (fun n opt i => conj (fun z H => rarg_at_int n z opt i H) (conj (rarg_at_none n opt i) (fun l z H => rarg_at_list l opt i z H))). Qed.
+Print Assumptions reset_args_spec.
+
+(* ... and the scripted family makes both visible: the seed in every observation (feature 1 = base +
+   episode), options["opt"] in the info returned by reset (key 2) *)
+Theorem reset_plumbing : forall E s seed opt a,
+  a < nag E ->
+  let r := env_reset E s (seed, opt) in
+  base (fst r) = match seed with Some z => z | None => base s end /\
+  info_in (snd (snd r)) a 2 = opt.
+Proof. exact reset_plumbing_lemma. Qed.
+Print Assumptions reset_plumbing.
+
 (* when the last live agent of a sub-environment finishes, its worker resets it and the observation
    returned for every agent is the first observation of the new episode; otherwise nothing is reset *)
 Theorem autoreset_first_obs : forall E agents s acts a,
   no_agent_left (fst (raw_step E s acts)) = true -> In a agents -> a < nag E ->
   let r := worker_step E agents s acts in
-  fst r = fst (env_reset E (fst (raw_step E s acts)) None) /\
+  fst r = fst (env_reset E (fst (raw_step E s acts)) no_rarg) /\
   ord (fst r) = S (ord s) /\ tm (fst r) = 0 /\
   get a (tobs (snd r)) [] = observe E (fst r) a 0%Z.
 Proof. exact autoreset_first_obs_lemma. Qed.
@@ -253,7 +273,7 @@ Print Assumptions wrapper_trunc_refuted.
 Definition Ex_envs : list senv :=
   [ {| eid := 0; nag := 2; lens := [1]; mode := MTrunc; leave := [None; None]; kind := KDict; unaligned := false |};
     {| eid := 1; nag := 2; lens := [3]; mode := MTerm; leave := [Some 1; None]; kind := KDict; unaligned := false |} ].
-Definition Ex_st : vstate := fst (vec_reset KDict [0; 1] Ex_envs (vec_init KDict [0; 1] Ex_envs) (Some 5%Z)).
+Definition Ex_st : vstate := fst (vec_reset KDict [0; 1] Ex_envs (vec_init KDict [0; 1] Ex_envs) (SInt 5%Z) (Some 9%Z)).
 Definition Ex_actions : list (dict (list Z)) := [ [(0, [1; 2]%Z); (1, [3; 4]%Z)]; [(0, [0; 1]%Z); (1, [2; 3]%Z)] ].
 Example hypotheses_satisfiable :
   Forall (fun E => kind E = KDict) Ex_envs /\ wf_vstate (length Ex_envs) KDict [0; 1] Ex_st /\
